@@ -1012,9 +1012,9 @@ def differential(chk, progs, judge=None):
             try:
                 d = impl_dump(c[1], c[2])
             except Unmodelled as ex:
-                chk.case(src, nontrivial=False)
+                # the behaviour of the compiled code is still judged below: a failing input beats a bare disagreement
+                d = m
                 chk.disagree("compiled AST outside the modelled target fragment", src, m, str(ex))
-                continue
             if d != m:
                 chk.disagree("Compiler.Compile.compile vs hy_compile (AST)", src, m, d)
         ir = impl_run(c[1], c[2], p["fault"], p["vals"], p["nv"])
